@@ -80,6 +80,41 @@ def run(index, tier="quick", seed=0) -> Result:
             rot_sites += len([s for s in dc.rot_sites if s[1] == "eigvecs"])
             label = name + (".setter" if kind == "setter" else "")
             _collect(res, cls, label, fn, dc, it, r)
+    # COH-5: a cache of an outer shape that reads the state of a core it hands out by reference (polygon / polyhedron
+    # properties) cannot be kept coherent: the caller can mutate the core directly
+    from ..interp import Interp as _I
+    for cls in index.shape_classes():
+        comps = {}
+        probe = _I(index)
+        for c in cls.mro:
+            for (cn, attr), comp in probe.composites.items():
+                if cn == c.name:
+                    comps[attr] = comp
+        if not comps:
+            continue
+        exposed = set()
+        for name, m in cls.public_members().items():
+            p = index.effective_prop(cls, name)
+            if p is not None and p.getter is not None and not p.cached:
+                it = _I(index)
+                r = it.run_entry(p.getter, cls)
+                v = r["result"]
+                if v is not None and v.obj is not None and v.obj.oid.startswith("self."):
+                    exposed.add(v.obj.oid.split(".", 1)[1])
+        for c in cls.mro:
+            for name, p in c.props.items():
+                if not p.cached:
+                    continue
+                it = _I(index)
+                r = it.run_entry(p.getter, cls)
+                inner = {e.loc for e in r["events"] if e.type == "read" and e.loc[0].startswith("self.") and e.loc[0].split(".", 1)[1] in exposed}
+                k = f"{cls.name}.{name}"
+                if inner:
+                    res.bad("COH-5", k, f"{p.getter.file}:{p.getter.lineno}", f"{k} caches a value computed from the state of the core "
+                            f"({sorted(a for _o, a in inner)[:4]}) that `{cls.name}.{sorted(exposed)[0].lstrip('_')}` hands out by reference: mutating the core "
+                            f"through that handle leaves the cache stale")
+                else:
+                    res.ok("COH-5", k)
     # MEMO-1: results memoised on the identity of a mutable shape go stale after any mutation
     for cls in index.shape_classes():
         for c in cls.mro:
